@@ -401,6 +401,28 @@ def sibling_gap_step(R: Draw, g: DocGen, doc: dict) -> dict | None:
         t = R.choice([n1.t, n2.t])
         sl = {"c": [P.mk(t, g.attrs(R, "node", t))], "os": 0, "oe": 0}
         ins = 1
+    if one_sided != "no" and R.bool(0.6):
+        # the straddled node is cut at the very end (or start) of its content, so that what remains of it is EMPTY, and
+        # lands in a wrapper that already has a child and takes the node's type after (before) it
+        n_, s_ = (n1, s1) if one_sided == "start" else (n2, s2)
+        hosts = [w for w in rs.node_names if not rs.leaf[w] and not rs.inline_content[w] and w != rs.top and rs.generatable.get(w)]
+        R.shuffle(hosts)
+        for w in hosts:
+            first = [c for c in rs.node_names if rs.generatable.get(c) and (rs.accepts(w, [c, n_.t]) if one_sided == "start" else rs.accepts(w, [n_.t, c]))]
+            if not first:
+                continue
+            kid = g.min_node(R.choice(first))
+            if one_sided == "start":
+                gap_from, gap_to = s_ + 1 + n_.content_size, s_ + n_.size
+                frm, to = s_, gap_to
+                sl = {"c": [P.mk(w, g.attrs(R, "node", w), [kid])], "os": 0, "oe": 0}
+                ins = 1 + P.size_of([kid], rs.leaf_types)
+            else:
+                gap_from, gap_to = s_, s_ + 1
+                frm, to = gap_from, s_ + n_.size
+                sl = {"c": [P.mk(w, g.attrs(R, "node", w), [kid])], "os": 0, "oe": 0}
+                ins = 1
+            break
     return {"k": "around", "from": frm, "to": to, "gapFrom": gap_from, "gapTo": gap_to, "slice": sl, "insert": ins, "structure": R.bool(0.3)}
 
 
